@@ -58,7 +58,7 @@ def case_b(draw):
     b = gen_graph._Builder(draw, rnd, ["s", "utg"], draw(st.sampled_from([0, 8, 97])), 7)
     b.cycles = draw(st.booleans())
     nchrom = draw(st.integers(1, 3))
-    names = draw(st.permutations(["chr1", "chr2", "chrX"]))[:nchrom]
+    names = draw(st.permutations(["chr1", "chr2", "chrX", "chr1.mat", "chr1.pat"]))[:nchrom]
     for name in names:
         b.chain(name, draw(st.sampled_from([0, 2, 3, 4, 6])))
     b.fix_majority()
@@ -270,3 +270,28 @@ def run_case(case):
     if case["kind"] == "io":
         return run_io(case)
     return run_order_case(case)
+
+
+def enumerations(tier, shard, nshards):
+    if shard != 0:
+        return
+
+    def gen():
+        import random
+
+        rnd = random.Random(11)
+        big = "".join(rnd.choices("ACGT", k=1_200_000))
+        lines = [
+            "S\tr1\tACGTAC\tLN:i:6\tSN:Z:chr1\tSO:i:0\tSR:i:0\txx:Z:first",
+            "S\tr2\tGGT\tLN:i:3\tSN:Z:chr1\tSO:i:6\tSR:i:0",
+            "S\thBIG\t%s\tLN:i:1200000\tSN:Z:HG01#1#ctg9\tSO:i:500\tSR:i:1\tkc:i:7\tzz:Z:tail-of-a-very-long-line" % big,
+            "S\tr3\tTTGAC\tLN:i:5\tSN:Z:chr1\tSO:i:9\tSR:i:0",
+            "S\tr4\tCA\tLN:i:2\tSN:Z:chr1\tSO:i:14\tSR:i:0",
+            "L\tr1\t+\tr2\t+\t0M", "L\tr2\t+\tr3\t+\t0M", "L\tr1\t+\thBIG\t+\t0M", "L\thBIG\t+\tr3\t+\t0M", "L\tr3\t+\tr4\t+\t0M",
+        ]
+        text = "\n".join(lines) + "\n"
+        yield {"kind": "io", "gfa": text}
+        for ws in (True, False):
+            yield {"kind": "order", "gfa": text, "order": "chr1", "by_chrom": ws, "with_sequence": ws, "via": "api"}
+
+    yield ("a segment line longer than 1 MiB (1.2 Mb insertion allele): round trip and order_gfa with/without sequences", gen(), True)
